@@ -109,6 +109,11 @@ pub struct HandlerRunner {
     ledger: Ledger,
     last_sig_cd: Option<u64>,
     delivering_handshake: bool,
+    ttl_ms: u64,
+    /// C15: number of session keys known when the last idle period longer than the ttl ended, and
+    /// the wire length at that moment
+    old_keys_mark: usize,
+    old_wire_mark: usize,
     next_del: usize,
     next_wru: HashMap<u64, usize>,
     next_req: HashMap<u64, usize>,
@@ -134,6 +139,9 @@ impl Default for HandlerRunner {
             ledger: Ledger::default(),
             last_sig_cd: None,
             delivering_handshake: false,
+            ttl_ms: 86_400_000,
+            old_keys_mark: 0,
+            old_wire_mark: 0,
             next_del: 0,
             next_wru: HashMap::new(),
             next_req: HashMap::new(),
@@ -586,6 +594,14 @@ impl HandlerRunner {
                             }
                         }
                         self.ledger.sealed.insert((k, pt));
+                        // C15: a packet made after an idle period longer than the session timeout
+                        // must not be sealed under a key from before that period
+                        if let Some(pos) = self.keys.iter().position(|(kb, _)| *kb == k) {
+                            let is_new = !self.ledger.key_nonce.contains_key(&(k, p.nonce));
+                            if pos < self.old_keys_mark && is_new && self.wire.len() >= self.old_wire_mark {
+                                out.push(format!("!MON C15 expired-session-used node={} to={}", from, dst_idx));
+                            }
+                        }
                         match self.ledger.key_nonce.get(&(k, p.nonce)) {
                             Some(h0) if *h0 != h => out.push(format!("!MON C19 nonce-reused-under-key node={}", from)),
                             _ => {
@@ -629,10 +645,9 @@ impl HandlerRunner {
         };
         match self.ledger.outstanding_chal.remove(&(at, cd)) {
             None => out.push(format!("!MON C03 handshake-accepted-for-consumed-or-foreign-challenge node={} cd={}", at, cd)),
-            Some(t) => {
-                if self.now_ms > t + self.timeout_ms + 2 {
-                    out.push(format!("!MON C03 handshake-accepted-after-challenge-expiry node={} age_ms={}", at, self.now_ms - t));
-                }
+            Some(_issued_at) => {
+                // (the age of the challenge is not checked here: a handshake with a bad signature
+                // legitimately re-arms the challenge timer; expiry is covered by the model comparison)
             }
         }
     }
@@ -688,6 +703,7 @@ impl Runner for HandlerRunner {
                 self.timeout_ms = timeout_ms.parse().unwrap_or(400);
                 let cap: usize = cap.parse().unwrap_or(1000);
                 let ttl_ms: u64 = ttl_ms.parse().unwrap_or(86_400_000);
+                self.ttl_ms = ttl_ms;
                 let rt = tokio::runtime::Builder::new_current_thread().enable_all().start_paused(true).build().unwrap();
                 let mut ops = Vec::new();
                 for idx in 1..=n {
@@ -958,6 +974,25 @@ impl HandlerRunner {
                     }
                 }
             }
+            // real-time idle period (the session cache reads the real clock)
+            ["hsleep", ms] => {
+                let ms: u64 = ms.parse().unwrap_or(0);
+                std::thread::sleep(Duration::from_millis(ms));
+                stats.bump("h.op.sleep");
+                if ms > self.ttl_ms {
+                    self.old_keys_mark = self.keys.len();
+                    self.old_wire_mark = self.wire.len();
+                    stats.bump("h.op.sleep-longer-than-ttl");
+                }
+                let ops: Vec<String> = self.nodes.iter().map(|n| format!("hev {} rtadv {}", n.idx, ms)).collect();
+                let mut replies = Vec::new();
+                for ni in 0..self.nodes.len() {
+                    let ex = self.exempt(ni);
+                    replies.push(format!("- ## {}", ex));
+                }
+                out.push(format!("!OP hmulti {}", ops.join(" ;; ")));
+                out.push(replies.join(" ;; "));
+            }
             ["hadv", ms] => {
                 let ms: u64 = ms.parse().unwrap_or(1);
                 stats.bump("h.op.adv");
@@ -1098,12 +1133,51 @@ pub fn gen_case(rng: &mut Rng, tier: &str, profile: &str, stats: &mut Stats) -> 
     let n = rng.range(2, 3);
     let retries = rng.range(1, 2);
     let timeout = 400;
-    ops.push(format!("hworld {} {} {} 1000 86400000", n, retries, timeout));
+    let c15 = profile == "C15";
+    if c15 {
+        // short real-time session timeout, small cache
+        ops.push(format!("hworld {} {} {} {} 400", n, retries, timeout, rng.range(1, 3)));
+    } else {
+        ops.push(format!("hworld {} {} {} 1000 86400000", n, retries, timeout));
+    }
     let steps = if tier == "thorough" { rng.range(60, 120) } else { rng.range(40, 90) };
     let mut rid = 1u64;
     let mut emitted = 0u64; // lower bound on the number of wire entries so far
-    let adversarial = profile == "C01" || profile == "C02" || profile == "C03" || rng.chance(1, 2);
     let other = |rng: &mut Rng, x: u64| -> u64 { let mut y = rng.range(1, n); if y == x { y = x % n + 1; } y };
+    if c15 {
+        // sessions are established, left idle for longer / shorter than the timeout, then used again
+        let mut ops2 = Vec::new();
+        for round in 0..rng.range(2, 3) {
+            let x = rng.range(1, n);
+            let y = other(rng, x);
+            ops2.push(format!("hreq {} {} enr {} 1", x, y, rid)); rid += 1;
+            for _ in 0..2 { ops2.push("hdel next".into()); }
+            ops2.push(format!("hwru {} next known", y));
+            for _ in 0..3 { ops2.push("hdel next".into()); }
+            ops2.push(format!("hresp {} next auto", y));
+            ops2.push("hdel next".into());
+            if n == 3 && rng.chance(1, 2) {
+                let z = 6 - x - y;
+                ops2.push(format!("hreq {} {} enr {} 1", x, z, rid)); rid += 1;
+                for _ in 0..2 { ops2.push("hdel next".into()); }
+                ops2.push(format!("hwru {} next known", z));
+                for _ in 0..3 { ops2.push("hdel next".into()); }
+            }
+            if round == 0 || rng.chance(1, 2) { ops2.push("hsleep 1000".into()); }
+            let (a, b) = if rng.chance(1, 2) { (x, y) } else { (y, x) };
+            ops2.push(format!("hreq {} {} enr {} {}", a, b, rid, rng.range(1, 4))); rid += 1;
+            for _ in 0..2 { ops2.push("hdel next".into()); }
+            ops2.push(format!("hwru {} next known", b));
+            for _ in 0..3 { ops2.push("hdel next".into()); }
+            ops2.push(format!("hresp {} next auto", b));
+            ops2.push("hdel next".into());
+        }
+        ops.extend(ops2);
+        ops.push("hquiet".into());
+        stats.bump("gen.cases.c15");
+        return ops;
+    }
+    let adversarial = profile == "C01" || profile == "C02" || profile == "C03" || rng.chance(1, 2);
     if rng.chance(1, 3) {
         // directed prefix: dial a node without knowing its record, let everything be answered
         // honestly, then issue another request while the first exchange is a while ago
@@ -1127,6 +1201,21 @@ pub fn gen_case(rng: &mut Rng, tier: &str, profile: &str, stats: &mut Stats) -> 
         emitted += 10;
     }
     for _ in 0..steps {
+        if profile == "C02" && emitted > 0 && rng.chance(1, 3) {
+            // tamper campaign: every kind of mutation of a captured datagram, redirection to another
+            // node, presentation from another source address
+            let k = rng.below(emitted);
+            match rng.below(7) {
+                0 | 1 => { ops.push(format!("hmut {} flip {}", k, rng.below(12000))); ops.push("hdel last".into()); }
+                2 => { ops.push(format!("hmut {} trunc {}", k, rng.below(400))); ops.push("hdel last".into()); }
+                3 => { ops.push(format!("hmut {} extend {}", k, rng.below(40))); ops.push("hdel last".into()); }
+                4 => { ops.push(format!("hmut {} splice {}", k, rng.below(emitted))); ops.push("hdel last".into()); }
+                5 => ops.push(format!("hdel {} {} {}", k, rng.range(1, 9), rng.range(1, n))),
+                _ => ops.push(format!("hdel {} {}", k, rng.range(1, 9))),
+            }
+            emitted += 1;
+            continue;
+        }
         match rng.below(100) {
             0..=13 => {
                 let x = rng.range(1, n);
